@@ -66,7 +66,7 @@ theorem enum_ok (E : Ext) (hU : E.U.AsciiCorrect) (cfg : Cfg) (targetOs : List S
   refine enum_clauses E hU .swift (cfg, st) targetOs c r attrs ident gens vs e acronyms _ _ hparse
     (by simp [C01.enumKeys, hs]) ?_
   intro hsc hk
-  exact C02.C02_backend .swift E acronyms _ hsc hk cfg st ss se st' hd
+  exact C02.C02_backend .swift E hU acronyms _ hsc hk cfg st ss se st' hd
 
 theorem block_of (U : UnicodeOps) (cfg : Cfg) {items emitted : List RustItem} {blocks : List Str} {st0 stN : St}
     (hperm : items.Perm emitted) (ht : Threaded (writeItem U cfg) items st0 blocks stN) {x : RustItem}
